@@ -220,6 +220,15 @@ def main():
                 bad_ops[o[0]] = bad_ops.get(o[0], 0) + 1
     for site, fail in known_seen.items():
         print(f"KNOWN-FINDING: property={prop} {known[site]['what']}")
+    # repaired defects must stay repaired
+    if not args.replay:
+        for k in common.load_fixed(prop):
+            why = common.run_witness(k["witness"])
+            if why is not None:
+                new_failures.append({"case": {"ops": [["witness", k["id"]]], "witness": k["witness"]},
+                                     "impl": [why],
+                                     "failure": {"site": "fixed-defect-returned:" + k["id"],
+                                                 "msg": f"{k['what']} -- witness fails again: {why}"}})
 
     # 5. search on break ----------------------------------------------
     searched = 0
